@@ -44,6 +44,7 @@ type RDelivery struct {
 	Tmpl string `json:"tmpl"`
 	Muts []RMut `json:"muts"`
 	Junk int    `json:"junk"` // > 0: byte-level junk variant instead of field mutations
+	Src  string `json:"src"`  // "alt": the message is sent by another announced feature of the peer ([1]/1) than the template's
 }
 type RCase struct {
 	Phase string      `json:"phase"`
@@ -215,6 +216,20 @@ func mutateAt(root any, path string, op string) any {
 				default:
 					t[key] = map[string]any{"bogus": 1}
 				}
+			case "zero":
+				// the zero value of the field's kind (entity / feature / counter 0, empty string, false)
+				switch cur.(type) {
+				case string:
+					t[key] = ""
+				case float64:
+					t[key] = 0
+				case bool:
+					t[key] = false
+				case []any:
+					t[key] = []any{0}
+				default:
+					t[key] = map[string]any{}
+				}
 			case "swap":
 				// another plausible value of the same domain
 				switch c := cur.(type) {
@@ -265,6 +280,26 @@ func mutateAt(root any, path string, op string) any {
 				t[idx] = "bogusValue"
 			case "wrongkind":
 				t[idx] = 17
+			case "zero":
+				switch t[idx].(type) {
+				case float64:
+					t[idx] = 0
+				case string:
+					t[idx] = ""
+				default:
+					t[idx] = map[string]any{}
+				}
+			case "swap":
+				switch c := t[idx].(type) {
+				case float64:
+					t[idx] = c + 1
+				case string:
+					if o, ok := swapValues[c]; ok {
+						t[idx] = o
+					} else {
+						t[idx] = c + "X"
+					}
+				}
 			}
 			return t
 		}
@@ -408,6 +443,21 @@ func robustReplay(args []string) {
 					if m.F-1 < len(paths) {
 						v = mutateAt(v, paths[m.F-1], m.Op)
 						line.Muts = append(line.Muts, m.Op+" "+paths[m.F-1])
+					}
+				}
+				raw, _ = json.Marshal(v)
+			}
+			if d.Src == "alt" && d.Junk == 0 {
+				// the same message, sent by the peer's announced client feature [1]/1 instead of the template's source
+				var v any
+				_ = json.Unmarshal(raw, &v)
+				if dg, ok := v.(map[string]any)["datagram"].(map[string]any); ok {
+					if h, ok := dg["header"].(map[string]any); ok {
+						if src, ok := h["addressSource"].(map[string]any); ok {
+							src["entity"] = []any{1}
+							src["feature"] = 1
+							line.Muts = append(line.Muts, "source [1]/1")
+						}
 					}
 				}
 				raw, _ = json.Marshal(v)
